@@ -44,51 +44,61 @@ def _classes():
         queue = []      # one entry per setter call: None | "pre" | "post"
         pending = False
         registry = None  # every object whose constructor was entered, in creation order
-
         opno = 0         # number of the running op: decides (reproducibly) whether a passing hook reads
 
         @classmethod
-        def read(cls):
-            """what a user hook typically does: look at the nodes through the public read-only API.
-            Reading must never change what later reads return (state cached on read must not go stale)."""
+        def read(cls, me):
+            """what a user hook typically does: look at the nodes through the public read-only API and
+            keep a note on the node.  Reading must never change what later reads return."""
+            first = cls.registry[0]
             for n in cls.registry:
-                n.parents, n.children, n.is_root, n.is_leaf
+                n.parents, n.children, n.is_root, n.is_leaf, n.siblings, n.node_name, (first in n), list(n)
+            me.set_attrs({"hook_seen": cls.opno})
 
         @classmethod
-        def pre(cls):
+        def pre(cls, me):
             cur = cls.queue.pop(0) if cls.queue else None
             cls.pending = cur == "post"
             if cur == "pre" or cls.opno % 3 != 1:
-                cls.read()
+                cls.read(me)
             if cur == "pre":
                 raise HookFault("pre")
 
         @classmethod
-        def post(cls):
+        def post(cls, me):
             if cls.pending or cls.opno % 3 != 2:
-                cls.read()
+                cls.read(me)
             if cls.pending:
                 cls.pending = False
                 raise HookFault("post")
 
     class FDag(DAGNode):
+        """DAGNode subclass with the four documented extension points overridden"""
+
         def __init__(self, name="", parents=None, children=None, **kwargs):
             Faults.registry.append(self)     # also when the constructor raises half-way
             super().__init__(name, parents, children, **kwargs)
 
         def _DAGNode__pre_assign_parents(self, new_parents):
-            Faults.pre()
+            Faults.pre(self)
 
         def _DAGNode__post_assign_parents(self, new_parents):
-            Faults.post()
+            Faults.post(self)
 
         def _DAGNode__pre_assign_children(self, new_children):
-            Faults.pre()
+            Faults.pre(self)
 
         def _DAGNode__post_assign_children(self, new_children):
-            Faults.post()
+            Faults.post(self)
 
-    _CLASSES.update(Faults=Faults, FDag=FDag)
+    class PDag(DAGNode):
+        """as plain as possible: DAGNode's own (empty) hooks; only remembers the objects"""
+
+        def __init__(self, name="", parents=None, children=None, **kwargs):
+            Faults.registry.append(self)
+            super().__init__(name, parents, children, **kwargs)
+
+    _CLASSES.update(Faults=Faults, FDag=FDag, PDag=PDag)
     return _CLASSES
 
 
@@ -96,11 +106,14 @@ class Junk:
     """a Python object that is neither a DAGNode nor iterable"""
 
 
-def _arg(nodes, a):
+def _arg(nodes, a, salt=0):
     if a[0] == "N":
         return nodes[a[1]]
     if a[0] == "None":
         return None
+    if salt % 2:
+        from bigtree.node.node import Node
+        return Node("junk")              # a tree node is no DAGNode either
     return Junk()
 
 
@@ -128,10 +141,15 @@ def _links(nodes, mismatch=None):
     for n in nodes:
         ps = [idx[id(x)] for x in n.parents]
         cs = [idx[id(x)] for x in n.children]
-        for attr, seen in (("_DAGNode__parents", ps), ("_DAGNode__children", cs)):
-            raw = getattr(n, attr, None)
-            if raw is not None and [idx[id(x)] for x in raw] != seen and mismatch is not None:
-                mismatch.append(attr)
+        if mismatch is not None:
+            for attr, seen in (("_DAGNode__parents", ps), ("_DAGNode__children", cs)):
+                raw = getattr(n, attr, None)
+                if raw is not None and [idx[id(x)] for x in raw] != seen:
+                    mismatch.append(attr)
+            if [idx[id(x)] for x in n.parents] != ps or [idx[id(x)] for x in n.children] != cs:
+                mismatch.append("getter not repeatable")
+            if bool(n.is_root) != (not ps) or bool(n.is_leaf) != (not cs):
+                mismatch.append("is_root/is_leaf")
         out.append([ps, cs])
     return out
 
@@ -143,16 +161,17 @@ def is_reuse(op):
 
 def _mk(ctx, nodes, kind, args, reuse):
     """the argument object of an assignment.  The caller's *list* objects are remembered: the model
-    has no aliasing, so (a) the same list object may be handed to two consecutive assignments and
-    (b) the caller may change its list after the call without any effect on the nodes."""
-    items = [_arg(nodes, a) for a in args]
+    has no aliasing, so (a) the same list object may be handed to two consecutive assignments,
+    (b) the caller may change its list after the call without any effect on the nodes, and (c) the
+    call must leave the caller's list as it was."""
+    items = [_arg(nodes, a, ctx["k"] + j) for j, a in enumerate(args)]
     if kind != "list":
         return _container(kind, items)
     key = repr(args)
     obj = ctx["last"].get(key) if reuse else None
     if obj is None:
         obj = list(items)
-    ctx["used"].append((key, obj))
+    ctx["used"].append((key, obj, [id(x) for x in obj]))
     return obj
 
 
@@ -160,7 +179,7 @@ def apply_op(cl, nodes, op, ctx=None):
     F = cl["Faults"]
     F.queue = []
     F.pending = False
-    ctx = ctx if ctx is not None else {"last": {}, "used": []}
+    ctx = ctx if ctx is not None else {"last": {}, "used": [], "k": 0, "cls": cl["FDag"]}
     reuse = is_reuse(op)
     k = op[0]
     if k == "SetParents":
@@ -186,20 +205,23 @@ def apply_op(cl, nodes, op, ctx=None):
             kw["parents"] = _mk(ctx, nodes, op[2][0], op[2][1], reuse)
         if op[3] is not None:
             kw["children"] = _mk(ctx, nodes, op[3][0], op[3][1], reuse)
-        cl["FDag"](op[1], **kw)
+        ctx["cls"](op[1], age=len(nodes), **kw)
     else:
         raise ValueError(k)
 
 
-def _after_call(ctx, nodes, k, keep):
+def _after_call(ctx, nodes, k, keep, mismatch):
     """what the caller does with its own list objects after op number k: keep them untouched when the
     next op is going to pass them again, otherwise change them (append some node / clear)"""
     used, ctx["used"] = ctx["used"], []
+    for _, lst, snap in used:
+        if [id(x) for x in lst] != snap:
+            mismatch.append("the call changed the caller's list")
     if keep:
-        ctx["last"] = dict(used)
+        ctx["last"] = {key: lst for key, lst, _ in used}
         return
     ctx["last"] = {}
-    for j, (_, lst) in enumerate(used):
+    for j, (_, lst, _s) in enumerate(used):
         if (k + j) % 3 == 2:
             lst.clear()
         else:
@@ -216,21 +238,101 @@ def _upward(links, x):
     return sorted(seen)
 
 
-def run_history(case):
+def _swap_in_copy(nodes, x, kept):
+    """node.copy() (deepcopy) of object x; the history continues on the copies of x's whole connected
+    component.  The model needs no operation for this: the copy has to be an exact structural twin."""
+    orig = nodes[x]
+    cp = orig.copy()
+    pairs = {id(orig): (orig, cp)}
+    stack = [(orig, cp)]
+    while stack:
+        o, c = stack.pop()
+        if type(o) is not type(c) or o.node_name != c.node_name:
+            raise RuntimeError("copy() changed class or name")
+        for ol, cl_ in ((o.parents, c.parents), (o.children, c.children)):
+            if len(ol) != len(cl_):
+                raise RuntimeError("copy() changed the number of links")
+            for oo, cc in zip(ol, cl_):
+                if id(oo) in pairs:
+                    if pairs[id(oo)][1] is not cc:
+                        raise RuntimeError("copy() is not one-to-one")
+                else:
+                    pairs[id(oo)] = (oo, cc)
+                    stack.append((oo, cc))
+    for i, n in enumerate(nodes):
+        if id(n) in pairs:
+            if pairs[id(n)][1] is n:
+                raise RuntimeError("copy() shares a node with the original")
+            kept.append((n, [id(p) for p in n.parents], [id(c) for c in n.children]))
+            nodes[i] = pairs[id(n)][1]
+
+
+def _guard(f):
+    try:
+        return f()
+    except RecursionError:
+        return ["exn", "recursion"]
+    except Exception as e:  # noqa
+        return ["exn", exn_code(e)]
+
+
+def _battery(nodes):
+    """read-only library calls on the final DAG (C20: compared between the two interpreters)"""
+    import json
+    from bigtree.dag.export import dag_to_dataframe, dag_to_dict, dag_to_list
+    from bigtree.utils.iterators import dag_iterator
+    idx = {id(n): i for i, n in enumerate(nodes)}
+
+    def ids(seq):
+        return [idx.get(id(x), -1) for x in seq]
+
+    out = []
+    for i, n in enumerate(nodes[:10]):
+        others = [nodes[(i + d) % len(nodes)] for d in (1, 2, 3)]
+        item = [
+            _guard(lambda: ids(n.ancestors)), _guard(lambda: ids(n.descendants)), _guard(lambda: ids(n.siblings)),
+            _guard(lambda: [bool(n.is_root), bool(n.is_leaf), n.node_name]),
+            _guard(lambda: [[k, v] for k, v in n.describe(exclude_prefix="_")]),
+            _guard(lambda: [n.get_attr("age"), n.get_attr("nope", 7)]),
+            _guard(lambda: [ids(p) for p in n.go_to(n)]),
+            [_guard(lambda m=m: [ids(p) for p in n.go_to(m)]) for m in others],
+            _guard(lambda: [ids(pr) for pr in dag_iterator(n)]),
+            _guard(lambda: [list(pr) for pr in dag_to_list(n)]),
+            _guard(lambda: dag_to_dict(n, all_attrs=True)),
+            _guard(lambda: sorted([a.node_name, b.node_name] for a, b in dag_iterator(n.copy()))),
+            _guard(lambda: [[c.node_name for c in n], [m in n for m in others]]),
+        ]
+        if i < 2:
+            item.append(_guard(lambda: dag_to_dataframe(n, all_attrs=True).to_dict("records")))
+        out.append(item)
+    return json.loads(json.dumps(out, default=str))
+
+
+def run_history(case, battery=False):
     """Runs in the harness worker (checks on) and, for C20, in the no-assertion child as well."""
     cl = _classes()
     F = cl["Faults"]
     F.queue, F.pending, F.opno = [], False, 0
     nodes = F.registry = []
-    for i in range(case["n"]):
-        cl["FDag"](case["names"][i])
-    trace = []
-    mismatch = []      # the public getters are what is observed; a private list that differs is recorded
-    ctx = {"last": {}, "used": []}
     ops = case["ops"]
+    faulty = any(f in ("pre", "post") for o in ops for f in o[3:] if isinstance(f, str))
+    cls = cl["PDag"] if (not faulty and len(ops) % 2 == 0) else cl["FDag"]
+    for i in range(case["n"]):
+        if i % 2:
+            cls.from_dict({"name": case["names"][i], "age": i})
+        else:
+            cls(case["names"][i], age=i)
+    trace = []
+    mismatch = []      # the public getters are what is observed; anything else that is off is recorded here
+    kept = []          # originals that were replaced by their copies, with their links at that moment
+    ctx = {"last": {}, "used": [], "k": 0, "cls": cls}
+    copy_at = {int(k): int(x) for k, x in case.get("copy_at", [])}
     for k, op in enumerate(ops):
         code = 0
-        F.opno = k
+        F.opno = ctx["k"] = k
+        if k in copy_at and copy_at[k] < len(nodes):
+            _swap_in_copy(nodes, copy_at[k], kept)
+            ctx["last"] = {}        # the caller's remembered list holds the originals: no reuse across a copy
         try:
             apply_op(cl, nodes, op, ctx)
         except HookFault:
@@ -238,8 +340,14 @@ def run_history(case):
         except Exception as e:
             code = exn_code(e)
         F.queue, F.pending = [], False
-        _after_call(ctx, nodes, k, keep=(k + 1 < len(ops) and is_reuse(ops[k + 1])))
-        trace.append([_links(nodes, mismatch), code])
+        _after_call(ctx, nodes, k, (k + 1 < len(ops) and is_reuse(ops[k + 1])), mismatch)
+        links = _links(nodes, mismatch)
+        trace.append([links, code])
+        # query - (no) mutate - query: derived queries must not change what the getters return
+        for n in nodes:
+            _guard(lambda: (n.ancestors, n.descendants, n.siblings, n.describe()))
+        if _links(nodes) != links:
+            mismatch.append("a read-only query changed the links")
     idx = {id(n): i for i, n in enumerate(nodes)}
     links = _links(nodes)
     anc = []
@@ -249,23 +357,38 @@ def run_history(case):
         except RecursionError:
             # `ancestors` does not terminate on a cyclic structure: report the true upward closure
             anc.append(_upward(links, i))
+    for n, ps, cs in kept:
+        if [id(p) for p in n.parents] != ps or [id(c) for c in n.children] != cs:
+            mismatch.append("an original changed after the history continued on its copy")
+    for i, n in enumerate(nodes):
+        ok_age = (i,) if i < case["n"] else (i, None)     # a constructor that raised never stored its kwargs
+        if n.node_name != (case["names"][i] if i < case["n"] else n.node_name) or n.get_attr("age") not in ok_age:
+            mismatch.append("name / attribute changed")
     if mismatch:
-        # getter view and name-mangled private list differ somewhere: the getter view is still evaluated
-        # against the property; the extra entry makes the correspondence (agree_anc: length) fail as well
+        # something outside the observed links is off: the getter view is still evaluated against the
+        # property; the extra entry makes the correspondence (agree_anc: length) fail as well
         anc.append([])
-    return {"trace": trace, "anc": anc, "private_mismatch": sorted(set(mismatch))}
+    obs = {"trace": trace, "anc": anc, "harness_notes": sorted(set(mismatch))}
+    if battery:
+        obs["bat"] = _battery(nodes)
+    return obs
 
 
 def run_impl(prop, case):
     import bigtree.globals as g
     if not g.ASSERTIONS:
         raise RuntimeError("the harness interpreter has to run with the assertion checks on")
-    obs = run_history(case)
+    obs = run_history(case, prop == "C20")
     if prop == "C20":
         from .. import noassert
         if noassert.call(MOD, "__assertions__"):
             raise RuntimeError("the child interpreter did not switch the assertion checks off")
-        obs["off"] = noassert.call(MOD, "run_history", case)["trace"]
+        off = noassert.call(MOD, "run_history", case, True)
+        obs["off"] = off["trace"]
+        obs["bat_off"] = off["bat"]
+        if off["harness_notes"]:
+            obs["anc"] = obs["anc"] + [[]]
+            obs["harness_notes"] = sorted(set(obs["harness_notes"]) | {"checks off: " + x for x in off["harness_notes"]})
     return obs
 
 
@@ -334,6 +457,12 @@ def _ctrace(tr):
     return clist(f"({n}, {clist(f'({i}, ({_ids(ps)}, {_ids(cs)}))' for i, ps, cs in d)}, {code})" for n, d, code in deltas)
 
 
+def _cdigests(bat):
+    import hashlib
+    import json
+    return clist(_ids(hashlib.sha1(json.dumps(item, sort_keys=True).encode()).digest()[:5]) for item in bat)
+
+
 def emit(prop, case, obs):
     n = case["n"]
     for tr in (obs["trace"], obs.get("off", [])):
@@ -346,6 +475,7 @@ def emit(prop, case, obs):
         cbool(case.get("assert", True)), str(n), clist(cstr(s) for s in case["names"]),
         clist(_cop(o) for o in case["ops"]), _ctrace(obs["trace"]),
         clist(_ids(a) for a in obs["anc"]), _ctrace(obs.get("off", [])),
+        _cdigests(obs.get("bat", [])), _cdigests(obs.get("bat_off", [])),
     ]
     return "DC " + " ".join(f"({p})" for p in parts)
 
@@ -469,6 +599,8 @@ def shadow_apply(sh, names, op):
 NAME_POOLS = {
     "distinct": ["a", "b", "c", "d", "e", "f", "g", "h", "i", "j", "k", "l"],
     "repeated": ["a", "b", "a", "c", "b", "a", "c", "b", "a", "c", "b", "a"],
+    "allsame": ["a"] * 12,
+    "falsy": ["", "0", "", "a", "0", "", "b", "", "0", "a", "", "0"],
 }
 SHAPES = ["deep", "diamond", "wide", "mixed"]
 
@@ -477,10 +609,10 @@ def _N(ids):
     return [["N", int(i)] for i in ids]
 
 
-def gen_case(rng, prop, fault_rate=0.08, invalid_rate=0.2, nmax=8, maxops=16):
+def gen_case(rng, prop, fault_rate=0.08, invalid_rate=0.2, nmax=8, maxops=16, minops=3):
     shape = rng.choice(SHAPES)
     n = rng.randint(4, nmax) if shape in ("deep", "diamond") else rng.randint(2, nmax)
-    pool_name = rng.choice(["distinct", "distinct", "repeated"])
+    pool_name = rng.choice(["distinct", "distinct", "repeated", "repeated", "allsame", "falsy"])
     pool = NAME_POOLS[pool_name]
     off = rng.randrange(len(pool))
     names = [pool[(off + i) % len(pool)] for i in range(n)]
@@ -509,9 +641,9 @@ def gen_case(rng, prop, fault_rate=0.08, invalid_rate=0.2, nmax=8, maxops=16):
         push(["SetParents", bot, "list", _N(mids), "none"])
     elif shape == "wide" and n >= 3:
         push(["SetKids", order[0], "list", _N(order[1:rng.randint(2, min(n, 7))]), "none"])
-    nops = len(ops) + rng.randint(3, maxops - len(ops)) if maxops - len(ops) >= 3 else maxops
+    nops = len(ops) + rng.randint(minops, maxops - len(ops)) if maxops - len(ops) >= minops else maxops
     guard = 0
-    while len(ops) < nops and guard < 200:
+    while len(ops) < nops and guard < 400:
         guard += 1
         n = sh.n
         r = rng.random()
@@ -614,7 +746,11 @@ def gen_case(rng, prop, fault_rate=0.08, invalid_rate=0.2, nmax=8, maxops=16):
             push(["New", pool[(off + n) % len(pool)], pa, ca, fault(), fault()])
             if pa and pa[0] == "list" and pa[1] and rng.random() < 0.3 and sh.n < nmax + 2:
                 push(["New", pool[(off + n + 1) % len(pool)], pa, None, fault(), fault(), "reuse"])
-    return {"assert": True, "n": n0, "names": names[:n0], "ops": ops, "stratum": f"{shape}/{pool_name}"}
+    case = {"assert": True, "n": n0, "names": names[:n0], "ops": ops, "stratum": f"{shape}/{pool_name}"}
+    if len(ops) >= 2 and rng.random() < 0.2:
+        # harness-only: before op k, object x (and its whole component) is replaced by node.copy()
+        case["copy_at"] = [[rng.randint(1, len(ops) - 1), rng.randrange(n0)]]
+    return case
 
 
 # ---------------------------------------------------------------------------------------------
@@ -656,7 +792,8 @@ def canonize(key):
     return r
 
 
-def _relabel_op(op, pi):
+def _relabel_op(op, pi, names=None):
+    names = names or BFS_NAMES
     def ra(args):
         return [["N", pi[a[1]]] if a[0] == "N" else a for a in args]
     k = op[0]
@@ -665,7 +802,7 @@ def _relabel_op(op, pi):
     if k == "DelKids":
         return [k, pi[op[1]]]
     if k == "DelKidOf":                       # abstract: delete by the name of object op[2]
-        return ["DelKid", pi[op[1]], BFS_NAMES[pi[op[2]]]]
+        return ["DelKid", pi[op[1]], names[pi[op[2]]]]
     if k in ("RShift", "LShift"):
         return [k, pi[op[1]], pi[op[2]], op[3]]
     if k == "New":
@@ -674,10 +811,13 @@ def _relabel_op(op, pi):
     raise ValueError(k)
 
 
-def op_universe(key, n, valid_only=False):
-    """every operation tried from the (canonical) state `key` on n objects"""
+def op_universe(key, n, valid_only=False, names=None, slim=False):
+    """every operation tried from the (canonical) state `key` on n objects (slim: member sequences of
+    length <= 2 and no failing hooks -- used for the second pass in which all objects carry one name)"""
+    names = names or BFS_NAMES
+    valid_only_or_slim = valid_only or slim
     sh = Shadow(par=key[0], kid=key[1])
-    seqs = [list(s) for k in range(0, 4) for s in itertools.product(range(n), repeat=k)]
+    seqs = [list(s) for k in range(0, 3 if slim else 4) for s in itertools.product(range(n), repeat=k)]
     out = []
     for t in range(n):
         for kind, ok in (("SetParents", sh.parents_valid), ("SetKids", sh.children_valid)):
@@ -685,7 +825,7 @@ def op_universe(key, n, valid_only=False):
                 v = ok(t, "list", _N(s))
                 if v or not valid_only:
                     out.append([kind, t, "list", _N(s), "none"])
-                if v and not valid_only:
+                if v and not valid_only_or_slim:
                     out.append([kind, t, "list", _N(s), "pre"])
                     out.append([kind, t, "list", _N(s), "post"])
             others = [x for x in range(n) if x != t]
@@ -713,7 +853,7 @@ def op_universe(key, n, valid_only=False):
                 a, b = (p, c) if kind == "RShift" else (c, p)
                 if v or not valid_only:
                     out.append([kind, a, b, "none"])
-                if v and not valid_only:
+                if v and not valid_only_or_slim:
                     out.append([kind, a, b, "pre"])
                     out.append([kind, a, b, "post"])
     if n < 4:
@@ -725,19 +865,20 @@ def op_universe(key, n, valid_only=False):
                 probe2 = Shadow(par=key[0], kid=key[1])
                 okall = probe2.new(["New", "d", pa, ca, "none", "none"])
                 if okall or not valid_only:
-                    out.append(["New", BFS_NAMES[n], pa, ca, "none", "none"])
-                if valid_only:
+                    out.append(["New", (names + BFS_NAMES)[n], pa, ca, "none", "none"])
+                if valid_only_or_slim:
                     continue
                 if okp:
-                    out.append(["New", BFS_NAMES[n], pa, ca, "pre", "none"])
-                    out.append(["New", BFS_NAMES[n], pa, ca, "post", "none"])
+                    out.append(["New", (names + BFS_NAMES)[n], pa, ca, "pre", "none"])
+                    out.append(["New", (names + BFS_NAMES)[n], pa, ca, "post", "none"])
                 if okall:
-                    out.append(["New", BFS_NAMES[n], pa, ca, "none", "pre"])
-                    out.append(["New", BFS_NAMES[n], pa, ca, "none", "post"])
+                    out.append(["New", (names + BFS_NAMES)[n], pa, ca, "none", "pre"])
+                    out.append(["New", (names + BFS_NAMES)[n], pa, ca, "none", "post"])
     return out
 
 
-def _expand(key, n):
+def _expand(key, n, names=None):
+    names = names or BFS_NAMES
     """accepted structural moves used to discover the reachable states (labelled)"""
     sh0 = Shadow(par=key[0], kid=key[1])
     for t in range(n):
@@ -749,18 +890,18 @@ def _expand(key, n):
         if sh0.kid[t]:
             yield ["DelKids", t]
             for c in sh0.kid[t]:
-                yield ["DelKid", t, BFS_NAMES[c]]
+                yield ["DelKid", t, names[c]]
 
 
-def enumerate_cases(n, valid_only=False):
-    names = BFS_NAMES[:n]
+def enumerate_cases(n, valid_only=False, same_names=False):
+    names = (["a"] * n) if same_names else BFS_NAMES[:n]
     init = Shadow(n).key()
     pred = {init: None}
     order = [init]
     q = deque([init])
     while q:
         s = q.popleft()
-        for op in _expand(s, n):
+        for op in _expand(s, n, names):
             sh = Shadow(par=s[0], kid=s[1])
             shadow_apply(sh, list(names), op)
             t = sh.key()
@@ -781,7 +922,7 @@ def enumerate_cases(n, valid_only=False):
     for s in order:
         c = canonize(s)[0]
         if c not in todo:
-            todo[c] = deque(op_universe(c, n, valid_only))
+            todo[c] = deque(op_universe(c, n, valid_only, names, slim=same_names))
             classes.append(c)
     for c in classes:
         while todo[c]:
@@ -792,10 +933,11 @@ def enumerate_cases(n, valid_only=False):
                 cc, pi = canonize(cur.key())
                 if not todo.get(cc):
                     break
-                op = _relabel_op(todo[cc].popleft(), pi)
+                op = _relabel_op(todo[cc].popleft(), pi, names)
                 ops.append(op)
                 shadow_apply(cur, nm, op)
-            yield {"assert": True, "n": n, "names": list(names), "ops": ops, "stratum": f"bfs{n}"}
+            yield {"assert": True, "n": n, "names": list(names), "ops": ops,
+                   "stratum": f"bfs{n}" + ("-samenames" if same_names else "")}
 
 
 # ---------------------------------------------------------------------------------------------
@@ -838,6 +980,10 @@ def corpus(prop):
         ("shared-list-children", {"n": 5, "names": ["a", "b", "c", "d", "e"], "ops": [
             ["SetKids", 0, "list", N([2, 3]), "none"], ["SetKids", 1, "list", N([2, 3]), "none", "reuse"],
             ["RShift", 0, 4, "none"], ["SetParents", 4, "list", N([2, 3]), "none"], ["SetKids", 1, "list", N([4]), "none"]]}),
+        ("copy-and-continue", {"n": 5, "names": ["a", "b", "a", "c", "b"], "copy_at": [[2, 1], [4, 0]], "ops": [
+            ["SetKids", 0, "list", N([1, 2]), "none"], ["SetParents", 3, "list", N([1, 2]), "none"],
+            ["RShift", 3, 4, "none"], ["SetKids", 4, "list", N([0]), "none"], ["DelKid", 0, "a"],
+            ["SetParents", 4, "list", N([0, 1]), "post"], ["DelKids", 0]]}),
         ("constructor", {"n": 3, "names": ["a", "b", "c"], "ops": [
             ["RShift", 0, 1, "none"], ["New", "d", ["list", N([1])], ["list", N([2])], "none", "none"],
             ["New", "e", ["list", N([3])], ["list", N([0])], "none", "none"],
@@ -863,14 +1009,21 @@ def corpus(prop):
 
 def generate(prop, rng, tier):
     count = {"quick": 1500, "thorough": 15000, "search": 4500}[tier]
-    if prop == "C20":          # two traces per case
-        count = count * 2 // 3
+    if prop == "C20":          # two traces and two interpreters per case
+        count = count // 2
     fr = {"C10": 0.08, "C02": 0.4, "C20": 0.0}[prop]
     ir = {"C10": 0.22, "C02": 0.25, "C20": 0.0}[prop]
     if tier == "thorough":
         for n in (1, 2, 3, 4):
             for c in enumerate_cases(n, valid_only=(prop == "C20")):
                 yield c["stratum"], c
+        for n in (2, 3, 4):            # once more with all objects carrying the same name
+            for c in enumerate_cases(n, valid_only=(prop == "C20"), same_names=True):
+                yield c["stratum"], c
+        for i in range(1500):          # long histories
+            c = gen_case(rng, prop, fault_rate=fr, invalid_rate=ir, maxops=60, minops=30)
+            c["stratum"] = "long/" + c["stratum"]
+            yield c["stratum"], c
     for i in range(count):
         c = gen_case(rng, prop, fault_rate=fr, invalid_rate=ir)
         if prop == "C20" and rng.random() < 0.15:
@@ -933,14 +1086,23 @@ def sample(prop, case, obs):
 def rule(prop):
     extra = {"C10": "", "C02": " (C02: additionally >= 1 rejected/failing op; ~40 % of the assignments carry a failing hook)",
              "C20": " (C20: valid ops only, no faults; every history is run in-process with the checks on and in a child "
-                    "interpreter started with BIGTREE_CONF_ASSERTIONS=\"\")"}[prop]
-    return ("random operation histories (<= 16 ops, 2-10 DAGNode objects: parents/children setters with list/tuple/set/view/"
-            "generator/non-iterable arguments, >>, <<, del children, del node[name], constructor with parents=/children=) with "
-            "fault-injecting hooks that read parents/children/is_root/is_leaf of every node before raising (and in ~2/3 of the "
-            "passing hook calls); every list argument is changed by the caller after the call (append/clear) and ~25 % of the list "
-            "assignments are followed by a second assignment that passes the very same list object to another node; strata: shape (deep/diamond/wide/mixed) x name pool (distinct/repeated); thorough tier adds "
-            "every DAG state reachable on <= 4 objects (up to renaming) x every op of a finite universe; non-trivial = >= 2 "
-            "accepted ops and >= 2 edges at some point" + extra + "; distinct by canonical JSON hash")
+                    "interpreter started with BIGTREE_CONF_ASSERTIONS=\"\"; besides the per-step links a battery of read-only "
+                    "calls on the final DAG -- ancestors, descendants, siblings, is_root/is_leaf, attributes, go_to incl. n.go_to(n), "
+                    "dag_iterator, dag_to_list/dict/dataframe, copy(), iteration/containment -- is compared between the two "
+                    "interpreters by digest)"}[prop]
+    return ("random operation histories (<= 16 ops, thorough also 30-60 ops; 2-10 DAGNode objects created by the constructor or from_dict, "
+            "with an attribute: parents/children setters with list/tuple/set/view/generator/non-iterable arguments, members incl. None, "
+            "a non-node object and a bigtree Node; >>, <<, del children, del node[name] incl. ambiguous and empty names, constructor with "
+            "parents=/children= incl. a failing second phase) on a DAGNode subclass with fault-injecting hooks that read "
+            "parents/children/siblings/is_root/is_leaf of every node and set an attribute before raising (and in ~2/3 of the passing hook "
+            "calls), or on a hook-free subclass when no fault is injected; every list argument is checked to be left unchanged by the call, "
+            "then changed by the caller (append/clear), ~25 % of the list assignments are followed by a second one passing the very same "
+            "list object; in ~20 % of the histories one object's component is replaced by node.copy() half-way and the history continues "
+            "on the copies (originals must stay unchanged); after every op the links are read twice through the public getters and the "
+            "private lists, then ancestors/descendants/siblings/describe of every node are queried and the links read again; "
+            "strata: shape (deep/diamond/wide/mixed) x name pool (distinct/repeated/all equal/falsy names); thorough tier adds every DAG state "
+            "reachable on <= 4 objects (up to renaming) x every op of a finite universe, a second such pass with all names equal; "
+            "non-trivial = >= 2 accepted ops and >= 2 edges at some point" + extra + "; distinct by canonical JSON hash")
 
 
 def explain(prop, case, obs, flags):
@@ -972,7 +1134,20 @@ def trusted_base(prop):
 
 
 def partial_clauses(prop):
-    return []
+    """deliberately accepted blind spots of this correspondence (the theorems themselves have no open clause)"""
+    out = [
+        "exceptions are compared as accepted/refused only (the class - TypeError/LoopError/TreeError/SearchError/raw hook error - is not)",
+        "with the checks off, arguments the checks would refuse (non-node / repeated members, loops, non-list parents) are outside the "
+        "modelled domain (Unmodelled -> case skipped; none are generated: 0 skipped cases per run); a one-shot iterator passed to the "
+        "PARENTS setter with the checks off is consumed by the assignment loop, so a failing post hook rolls nothing back (not valid with the checks on)",
+        "node.ancestors is compared with the model as a set and only at the end of the history (its order is C16's); descendants/siblings/go_to "
+        "results are exercised after every op but compared only across the two interpreters (C20), not against a model",
+        "not generated: Python sets with > 1 member (hash order), a DAGNode used as the iterable (`p.children = q`), the `parent=` keyword of the "
+        "constructor, subclasses overriding __eq__/__hash__, hooks that change links or their list argument, node names that are not str",
+    ]
+    if prop == "C20":
+        out.append("the C20 battery runs on the final DAG only and is compared by digest between the interpreters; workflows/plot calls are not in it")
+    return out
 
 
 def assumptions(prop):
